@@ -704,16 +704,40 @@ def install(pid, rec):
             return True
 
         def nu_post(tok, out, cls_, units, *a, **k):
-            if k.get('ends') or (len(a) >= 1 and a[0]): return
+            ends = k.get('ends') if 'ends' in k else (a[0] if len(a) >= 1 else None)
             units = list(units)
             path = c19.flatten(out)
-            REC.check(set(path) == set(units), 'ambient:path', 'path-set', f'{NODE[0]}: Network.from_units: path units {[u.ID for u in path]} != given units {[u.ID for u in units]}', case=case())
+            ids = [u.ID for u in path]
+            if ends:
+                # a section of the system was asked for: units behind an end stream may be missing, but nothing foreign may appear
+                REC.check(set(path) <= set(units), 'ambient:path', 'path-subset-with-ends', f'{NODE[0]}: Network.from_units(ends=...): path units {ids} are not all among the given units', case=case())
+            else:
+                REC.check(set(path) == set(units), 'ambient:path', 'path-set', f'{NODE[0]}: Network.from_units: path units {ids} != given units {[u.ID for u in units]}', case=case())
+            endids = {id(s) for s in ends} if ends else set()
+            inpath = set(path)
+            edges = [e for e in c19.edges_from_units([u for u in units if u in inpath]) if e[2] not in endids]
             recycles = out.get_all_recycles()
+            dup = len(path) != len(set(path))
             if not recycles:
-                REC.check(len(path) == len(set(path)), 'ambient:path', 'each-unit-once', f'{NODE[0]}: no recycle reported but a unit appears twice in {[u.ID for u in path]}', case=case())
-                pos = {u: k_ for k_, u in enumerate(path)}
-                bad = [(u.ID, s.sink.ID) for u in path for s in u.outs if getattr(s, 'sink', None) in pos and bool(s) is not None and pos[s.sink] <= pos[u]]
+                REC.check(not dup, 'ambient:path', 'each-unit-once', f'{NODE[0]}: no recycle reported but a unit appears twice in {ids}', case=case())
+                pos = {}
+                for k_, u in enumerate(path): pos.setdefault(u, k_)
+                bad = [(a_.ID, b_.ID) for a_, b_, sid in edges if pos[b_] <= pos[a_]]
                 REC.check(not bad, 'ambient:path', 'order', f'{NODE[0]}: no recycle reported but units appear before units that feed them: {bad[:4]}', case=case())
+            else:
+                rids = {id(r) for r in recycles}
+                REC.check(c19._acyclic(list(inpath), [(a_, b_) for a_, b_, sid in edges if sid not in rids]), 'ambient:path', 'cycle-without-recycle',
+                          f'{NODE[0]}: a cycle of the flowsheet carries none of the reported recycles; path {ids}', case=case())
+                stray = []
+                for ln, rs in c19.loop_networks(out):
+                    inl = set(c19.flatten(ln))
+                    stray += [r for r in rs if not (getattr(r, 'source', None) in inl and getattr(r, 'sink', None) in inl)]
+                REC.check(not stray, 'ambient:path', 'recycle-inside-own-loop' + ('/unit-listed-twice' if dup else ''), f'{NODE[0]}: reported recycle(s) do not connect two units of their own loop; path {ids}', case=case())
+                REC.check(not dup, 'ambient:path', 'each-unit-once/with-recycle', f'{NODE[0]}: a unit appears twice in {ids}', case=case())
+                if not dup:
+                    found = []
+                    c19.order_inside_networks(out, edges, found)
+                    REC.check(not found, 'ambient:path', 'order-inside-networks', f'{NODE[0]}: {"; ".join(t for _, t in found[:2])}; path {ids}', case=case())
             if len(units) >= 3: REC.mark_nontrivial(f'{NODE[0]}:{len(REC.nontrivial)}')
         wrap(Network, 'from_units', nu_pre, nu_post)
 
